@@ -97,10 +97,10 @@ func init() {
 		Mutation{Name: "delete-absent-key-decrements-size", File: "cache/nemap.go",
 			Old: "\t_, exists := s.store[key]\n\n\tif exists {\n\t\tdelete(s.store, key)\n\t\ts.stats.Delete()\n\t}", New: "\tdelete(s.store, key)\n\ts.stats.Delete()", Expect: "delete↔present"},
 		Mutation{Name: "put-split-into-two-critical-sections", File: "cache/sieve.go",
-			Old: "func (s *Sieve[K, V]) Put(key K, value V) {\n\ts.rwLock.Lock()\n\tdefer s.rwLock.Unlock()\n\n\tif existingEntry, exists := s.store[key]; exists {\n\t\t// Update the entry values\n\t\texistingEntry.value = value\n\t\texistingEntry.visited.Store(true)\n\t} else {\n\t\ts.putEntry(key, value)\n\t}\n}",
-			New: "func (s *Sieve[K, V]) updateEntry(key K, value V) bool {\n\ts.rwLock.Lock()\n\tdefer s.rwLock.Unlock()\n\n\texistingEntry, exists := s.store[key]\n\tif exists {\n\t\texistingEntry.value = value\n\t\texistingEntry.visited.Store(true)\n\t}\n\treturn exists\n}\n\nfunc (s *Sieve[K, V]) Put(key K, value V) {\n\tif !s.updateEntry(key, value) {\n\t\ts.putEntry(key, value)\n\t}\n}",
+			Old:    "func (s *Sieve[K, V]) Put(key K, value V) {\n\ts.rwLock.Lock()\n\tdefer s.rwLock.Unlock()\n\n\tif existingEntry, exists := s.store[key]; exists {\n\t\t// Update the entry values\n\t\texistingEntry.value = value\n\t\texistingEntry.visited.Store(true)\n\t} else {\n\t\ts.putEntry(key, value)\n\t}\n}",
+			New:    "func (s *Sieve[K, V]) updateEntry(key K, value V) bool {\n\ts.rwLock.Lock()\n\tdefer s.rwLock.Unlock()\n\n\texistingEntry, exists := s.store[key]\n\tif exists {\n\t\texistingEntry.value = value\n\t\texistingEntry.visited.Store(true)\n\t}\n\treturn exists\n}\n\nfunc (s *Sieve[K, V]) Put(key K, value V) {\n\tif !s.updateEntry(key, value) {\n\t\ts.putEntry(key, value)\n\t}\n}",
 			Expect: "C16-R6-one-critical-section|Sieve.Put",
-			Also: []Edit{{"cache/sieve.go", "func (s *Sieve[K, V]) putEntry(key K, value V) {\n", "func (s *Sieve[K, V]) putEntry(key K, value V) {\n\ts.rwLock.Lock()\n\tdefer s.rwLock.Unlock()\n\n"}}},
+			Also:   []Edit{{"cache/sieve.go", "func (s *Sieve[K, V]) putEntry(key K, value V) {\n", "func (s *Sieve[K, V]) putEntry(key K, value V) {\n\ts.rwLock.Lock()\n\tdefer s.rwLock.Unlock()\n\n"}}},
 	)
 	add("C16",
 		Mutation{Name: "combined-accumulates-into-live-counters", File: "cache/cache.go",
